@@ -165,6 +165,16 @@ class Task:
         self.n_input = len(data)
         buf, self.counter = make_source(spec.get("source", "bytes"), data, spec.get("chunks"), hook)
         self._grow_i, self._grow_bytes, self._grow_ends = 0, 0, None
+        if spec.get("kind") == "api-noise":
+            # not a decode: a step of calls into public helpers of the library (see real.api_noise)
+            self.n_input, self.counter, self.root = 0, None, ""
+
+            def noise():
+                real.api_noise(spec["seed"])
+                return
+                yield
+            self.decoder = self.gen = self.top = noise()
+            return
         self.root = spec.get("root_path") or ""      # caller-chosen root path; items and error summaries are relative to it
         self.decoder = real.marshal(spec.get("front", "binary"), spec["type"], buf,
                                     cc=self._cc(spec.get("cc")), enc=spec.get("enc"),
